@@ -344,7 +344,7 @@ func c10CaseId(txn, class, n, round int) int { return (((txn*8+class)*500+n)*8 +
 func runC10(seed int64, tier string, out string) {
 	r := rand.New(rand.NewSource(seed))
 	meta := newMeta("C10", seed)
-	meta.Rule = "transactions generated from one seeded PRNG: 1-3 of the tables t1..t3 updated by 1-2 UPDATE/INSERT/DELETE statements each, 0-2 tables created (CREATE TABLE + 0-2 INSERT), 0-1 table locked by a statement that changes nothing, t4 untouched, statements interleaved at random, implicit or explicit COMMIT, line break LF/CRLF/stripped. Each transaction is run by build/csvq under strace -f once undisturbed and once per (system call class in openat/ftruncate/write/close/unlinkat/renameat, N) with SIGKILL injected before the N-th such call on a repository path. After every run the hidden files are deleted and csvq must be able to SELECT from t1..t4 (recoverable). A case = one run; it is non-trivial when at least one mutating call completed; distinct = distinct (transaction, number of completed calls, killed or not) triples."
+	meta.Rule = "transactions generated from one seeded PRNG: 1-3 of the tables t1..t3 updated by 1-2 UPDATE/INSERT/DELETE statements each, 0-2 tables created (CREATE TABLE + 0-2 INSERT), 0-1 table locked by a statement that changes nothing, t4 untouched, statements interleaved at random, implicit or explicit COMMIT, line break LF/CRLF/stripped. Each transaction is run by build/csvq under strace -f once undisturbed and once per (system call class in openat/ftruncate/write/close/unlinkat/renameat, N) with SIGKILL injected before the N-th such call on a repository path. After every run the hidden files are deleted and csvq must be able to SELECT from t1..t4 (recoverable). Second part (model-free): two large tables (1500+300 records quick, 6000+600 thorough) in each of CSV, TSV, LTSV, JSON Lines, JSON and fixed-length format are updated and committed while SIGTERM/SIGINT/SIGQUIT (cancellation noticed by the encoders between records) or SIGKILL is injected at a spread of the write calls and at ftruncate/renameat/close calls of the COMMIT; afterwards each table file must be byte-identical to its complete old or complete new contents and, with the hidden files deleted, a fresh csvq must count the right number of records. A case = one run; it is non-trivial when at least one mutating call completed; distinct = distinct (transaction, number of completed calls, killed or not) triples."
 	w := &shardWriter{dir: out, prop: "C10", max: 120, meta: meta,
 		header: "From Coq Require Import NArith List.\nRequire Import Csvq.Model.Base Csvq.Model.Fs Csvq.Model.Commit Csvq.Harness.H10.\nOpen Scope list_scope.\n",
 		footer: func(ls []string) string {
@@ -510,6 +510,7 @@ func runC10(seed int64, tier string, out string) {
 		}
 	}
 	w.flush()
+	c10Formats(meta, r, tier, sc)
 	tot, cov, ro := 0, 0, 0
 	for i, t := range txns {
 		if !usable[i] {
